@@ -22,6 +22,89 @@ import (
 type gen struct {
 	desc string
 	mk   func(ret *int) []fl.Stmt // ret numbers the return statements so that each returns a distinct literal
+	enum bool                     // uses the enum Col3 and the helper pick3 (declared by build)
+}
+
+// the enum of the enum-match bodies; pick3(v) maps v <= 0, 1, >= 2 to A, B, C
+var col3 = &fl.TEnum{Name: "Col3", Variants: []string{"A", "B", "C"}}
+var pick3 = &fl.Func{Name: "pick3", Shared: true, Params: []fl.Param{{"v", fl.I32}}, Ret: col3, Body: []fl.Stmt{
+	&fl.If{Cond: fl.B("<=", fl.V("v"), c(0)), Then: []fl.Stmt{&fl.Return{X: &fl.EnumVal{T: col3, V: "A"}}}},
+	&fl.If{Cond: fl.B("==", fl.V("v"), c(1)), Then: []fl.Stmt{&fl.Return{X: &fl.EnumVal{T: col3, V: "B"}}}},
+	&fl.Return{X: &fl.EnumVal{T: col3, V: "C"}}}}
+
+// enumMatchGens: `match pick3(x) { arms }` for every sequence of 1..4 arms over the three
+// variants (repetitions included) with and without a default arm; every arm returns.
+func enumMatchGens() []gen {
+	var out []gen
+	var rec func(seq []int)
+	rec = func(seq []int) {
+		if len(seq) > 0 {
+			for _, def := range []bool{false, true} {
+				seq, def := append([]int{}, seq...), def
+				d := "ematch["
+				for _, v := range seq {
+					d += col3.Variants[v]
+				}
+				d += "]"
+				if def {
+					d += "+_"
+				}
+				out = append(out, gen{desc: d, enum: true, mk: func(n *int) []fl.Stmt {
+					m := &fl.Match{Subj: fl.C("pick3", x())}
+					for _, v := range seq {
+						m.Arms = append(m.Arms, fl.Arm{Pat: &fl.EnumVal{T: col3, V: col3.Variants[v]}, Body: []fl.Stmt{retStmt(n)}})
+					}
+					if def {
+						m.Arms = append(m.Arms, fl.Arm{Body: []fl.Stmt{retStmt(n)}})
+					}
+					return []fl.Stmt{m}
+				}})
+			}
+		}
+		if len(seq) == 4 {
+			return
+		}
+		for v := 0; v < 3; v++ {
+			rec(append(seq, v))
+		}
+	}
+	rec(nil)
+	return out
+}
+
+// loopCondGens: a loop whose condition is a local bool the compiler might think it knows.
+func loopCondGens() []gen {
+	b := func(v bool) fl.Expr { return &fl.BoolLit{V: v} }
+	f := fl.V("f")
+	letf := func(v bool, konst bool) fl.Stmt { return &fl.Let{Name: "f", T: fl.Bool, Init: b(v), Const: konst} }
+	var out []gen
+	add := func(d string, mk func(n *int) []fl.Stmt) { out = append(out, gen{desc: d, mk: mk}) }
+	// the loop is skipped (f is false when it is reached), nothing returns after it
+	add("f=false;while-f{ret};f=true", func(n *int) []fl.Stmt {
+		return []fl.Stmt{letf(false, false), &fl.While{Cond: f, Body: []fl.Stmt{retStmt(n)}}, &fl.Assign{LHS: f, RHS: b(true)}}
+	})
+	add("f=false;while-f{ret}", func(n *int) []fl.Stmt {
+		return []fl.Stmt{letf(false, false), &fl.While{Cond: f, Body: []fl.Stmt{retStmt(n)}}}
+	})
+	add("const-f=false;while-f{ret}", func(n *int) []fl.Stmt {
+		return []fl.Stmt{letf(false, true), &fl.While{Cond: f, Body: []fl.Stmt{retStmt(n)}}}
+	})
+	add("f=true;f=false;while-f{ret}", func(n *int) []fl.Stmt {
+		return []fl.Stmt{letf(true, false), &fl.Assign{LHS: f, RHS: b(false)}, &fl.While{Cond: f, Body: []fl.Stmt{retStmt(n)}}}
+	})
+	add("f=true;if{f=false};while-f{ret}", func(n *int) []fl.Stmt {
+		return []fl.Stmt{letf(true, false), &fl.If{Cond: fl.B("<", x(), c(1)), Then: []fl.Stmt{&fl.Assign{LHS: f, RHS: b(false)}}}, &fl.While{Cond: f, Body: []fl.Stmt{retStmt(n)}}}
+	})
+	add("f=x<1;while-f{ret}", func(n *int) []fl.Stmt {
+		return []fl.Stmt{&fl.Let{Name: "f", T: fl.Bool, Init: fl.B("<", x(), c(1))}, &fl.While{Cond: f, Body: []fl.Stmt{retStmt(n)}}}
+	})
+	add("while-1<2{if{ret}};", func(n *int) []fl.Stmt {
+		return []fl.Stmt{&fl.Let{Name: "i", T: fl.I32, Init: c(0)}, &fl.While{Cond: fl.B("<", fl.V("i"), c(2)), Body: []fl.Stmt{&fl.IncDec{LHS: fl.V("i"), Inc: true}, &fl.If{Cond: fl.B("<", x(), c(1)), Then: []fl.Stmt{retStmt(n)}}}}}
+	})
+	add("if-f{ret}else-if-not-f{ret}", func(n *int) []fl.Stmt {
+		return []fl.Stmt{&fl.Let{Name: "f", T: fl.Bool, Init: fl.B("<", x(), c(1))}, &fl.If{Cond: f, Then: []fl.Stmt{retStmt(n)}, Else: []fl.Stmt{&fl.If{Cond: &fl.Un{Op: "!", X: f}, Then: []fl.Stmt{retStmt(n)}}}}}
+	})
+	return out
 }
 
 func x() fl.Expr          { return fl.V("x") }
@@ -33,12 +116,12 @@ func retStmt(n *int) fl.Stmt {
 
 func atoms(inLoop bool) []gen {
 	a := []gen{
-		{"ret", func(n *int) []fl.Stmt { return []fl.Stmt{retStmt(n)} }},
-		{"inc", func(n *int) []fl.Stmt { return []fl.Stmt{&fl.Assign{LHS: fl.V("y"), RHS: fl.B("+", fl.V("y"), c(1))}} }},
+		{desc: "ret", mk: func(n *int) []fl.Stmt { return []fl.Stmt{retStmt(n)} }},
+		{desc: "inc", mk: func(n *int) []fl.Stmt { return []fl.Stmt{&fl.Assign{LHS: fl.V("y"), RHS: fl.B("+", fl.V("y"), c(1))}} }},
 	}
 	if inLoop {
-		a = append(a, gen{"brk", func(n *int) []fl.Stmt { return []fl.Stmt{&fl.Break{}} }},
-			gen{"cont", func(n *int) []fl.Stmt {
+		a = append(a, gen{desc: "brk", mk: func(n *int) []fl.Stmt { return []fl.Stmt{&fl.Break{}} }},
+			gen{desc: "cont", mk: func(n *int) []fl.Stmt {
 				return []fl.Stmt{&fl.Assign{LHS: fl.V("y"), RHS: fl.B("+", fl.V("y"), c(1))}, &fl.If{Cond: fl.B("<", fl.V("y"), c(50)), Then: []fl.Stmt{&fl.Continue{}}}}
 			}})
 	}
@@ -52,7 +135,7 @@ func blocks(depth int, inLoop bool, maxLen int) []gen {
 		for _, a := range st {
 			for _, b := range st {
 				a, b := a, b
-				out = append(out, gen{a.desc + ";" + b.desc, func(n *int) []fl.Stmt { return append(a.mk(n), b.mk(n)...) }})
+				out = append(out, gen{desc: a.desc + ";" + b.desc, mk: func(n *int) []fl.Stmt { return append(a.mk(n), b.mk(n)...) }})
 			}
 		}
 	}
@@ -71,17 +154,17 @@ func stmts(depth int, inLoop bool) []gen {
 	for _, b := range inner {
 		b := b
 		out = append(out,
-			gen{"if{" + b.desc + "}", func(n *int) []fl.Stmt { return []fl.Stmt{&fl.If{Cond: fl.B("<", x(), c(1)), Then: b.mk(n)}} }},
+			gen{desc: "if{" + b.desc + "}", mk: func(n *int) []fl.Stmt { return []fl.Stmt{&fl.If{Cond: fl.B("<", x(), c(1)), Then: b.mk(n)}} }},
 		)
 		for _, b2 := range inner {
 			b2 := b2
 			out = append(out,
-				gen{"if{" + b.desc + "}else{" + b2.desc + "}", func(n *int) []fl.Stmt {
+				gen{desc: "if{" + b.desc + "}else{" + b2.desc + "}", mk: func(n *int) []fl.Stmt {
 					return []fl.Stmt{&fl.If{Cond: fl.B("<", x(), c(1)), Then: b.mk(n), Else: b2.mk(n)}}
 				}})
 		}
 		// else-if chain with final else
-		out = append(out, gen{"if{" + b.desc + "}elif{ret}else{" + b.desc + "}", func(n *int) []fl.Stmt {
+		out = append(out, gen{desc: "if{" + b.desc + "}elif{ret}else{" + b.desc + "}", mk: func(n *int) []fl.Stmt {
 			return []fl.Stmt{&fl.If{Cond: fl.B("<", x(), c(0)), Then: b.mk(n), Else: []fl.Stmt{&fl.If{Cond: fl.B("==", x(), c(0)), Then: []fl.Stmt{retStmt(n)}, Else: b.mk(n)}}}}
 		}})
 		// match on x with arms subset of {1,2}, with/without default
@@ -92,7 +175,7 @@ func stmts(depth int, inLoop bool) []gen {
 				if def {
 					d += "+_"
 				}
-				out = append(out, gen{d + "{" + b.desc + "}", func(n *int) []fl.Stmt {
+				out = append(out, gen{desc: d + "{" + b.desc + "}", mk: func(n *int) []fl.Stmt {
 					m := &fl.Match{Subj: x()}
 					for _, a := range arms {
 						m.Arms = append(m.Arms, fl.Arm{Pat: c(a), Body: b.mk(n)})
@@ -109,15 +192,15 @@ func stmts(depth int, inLoop bool) []gen {
 		for _, b := range blocks(depth-1, true, 1) {
 			b := b
 			out = append(out,
-				gen{"while{" + b.desc + "}", func(n *int) []fl.Stmt {
+				gen{desc: "while{" + b.desc + "}", mk: func(n *int) []fl.Stmt {
 					return []fl.Stmt{&fl.Block{Body: []fl.Stmt{&fl.Let{Name: "i", T: fl.I32, Init: c(0)}, &fl.While{Cond: fl.B("<", fl.V("i"), x()), Body: append([]fl.Stmt{&fl.IncDec{LHS: fl.V("i"), Inc: true}}, b.mk(n)...)}}}}
 				}},
-				gen{"whiletrue{" + b.desc + "}", func(n *int) []fl.Stmt {
+				gen{desc: "whiletrue{" + b.desc + "}", mk: func(n *int) []fl.Stmt {
 					// `while true` leaves only through break/return; the counter bounds runs that do neither
 					return []fl.Stmt{&fl.Block{Body: []fl.Stmt{&fl.Let{Name: "i", T: fl.I32, Init: c(0)}, &fl.While{Cond: &fl.BoolLit{V: true}, Body: append([]fl.Stmt{&fl.IncDec{LHS: fl.V("i"), Inc: true},
 						&fl.If{Cond: fl.B(">", fl.V("i"), c(3)), Then: []fl.Stmt{retStmt(n)}}}, b.mk(n)...)}}}}
 				}},
-				gen{"for{" + b.desc + "}", func(n *int) []fl.Stmt {
+				gen{desc: "for{" + b.desc + "}", mk: func(n *int) []fl.Stmt {
 					return []fl.Stmt{&fl.Block{Body: []fl.Stmt{&fl.Let{Name: "lo", T: fl.I32, Init: c(0)}, &fl.ForRange{Var: "i", Lo: fl.V("lo"), Hi: x(), Body: b.mk(n)}}}}
 				}})
 		}
@@ -160,6 +243,17 @@ func analyseStmt(s fl.Stmt) flow {
 	case *fl.Match:
 		hasDefault := false
 		f := flow{}
+		named := map[string]bool{}
+		var en *fl.TEnum
+		for _, a := range s.Arms {
+			if ev, ok := a.Pat.(*fl.EnumVal); ok {
+				named[ev.V] = true
+				en = ev.T
+			}
+		}
+		if en != nil && len(named) == len(en.Variants) {
+			hasDefault = true // every variant is named: some arm is always taken
+		}
 		for _, a := range s.Arms {
 			if a.Pat == nil {
 				hasDefault = true
@@ -198,6 +292,10 @@ func build(g gen, kind, sfx string) (*fl.Program, []fl.Stmt) {
 	n := 0
 	body := append([]fl.Stmt{&fl.Let{Name: "y", T: fl.I32, Init: c(0)}}, g.mk(&n)...)
 	p := &fl.Program{}
+	if g.enum {
+		p.Enums = append(p.Enums, col3)
+		p.Funcs = append(p.Funcs, pick3)
+	}
 	var mainBody []fl.Stmt
 	args := []int64{-1, 0, 1, 2, 3}
 	switch kind {
@@ -276,6 +374,8 @@ func Run(ctx *vl.Ctx) {
 		depth = 2
 	}
 	gens := blocks(depth, false, 2)
+	gens = append(gens, enumMatchGens()...)
+	gens = append(gens, loopCondGens()...)
 	type item struct {
 		id       string
 		p        *fl.Program
